@@ -2,7 +2,7 @@
    Statements only; proofs are in Proofs/ClusterProofs.v (and Proofs/SemilatticeFold.v). *)
 From stdpp Require Import gmap.
 From RV Require Import Lib.Hex Model.Crdt Model.ShardState Model.Cluster Proofs.ShardStateProofs
-  Proofs.SemilatticeFold Proofs.ClusterProofs Proofs.ServeProofs.
+  Proofs.SemilatticeFold Proofs.ClusterProofs Proofs.ServeProofs Proofs.UniqueStamps Proofs.ClosedSec.
 
 (* Strong eventual consistency, algebraic core: on a class closed under an associative,
    commutative, idempotent merge, folding two sequences with the same SET of elements (any
@@ -45,6 +45,36 @@ Theorem C06_sec : forall (U : stamp -> option lww) (K : list N -> N),
   sh_keys (n_sh ni) !! k = sh_keys (n_sh nj) !! k.
 Proof. exact sec_lemma. Qed.
 Print Assumptions C06_sec.
+
+(* Every register stamp is used at most once in a cluster (the cluster-level form of C08): in
+   every run whose deliveries are of previously emitted deltas and in which no clock
+   overflowed, two registers occurring in emitted deltas with equal stamps are equal. *)
+Theorem C06_unique_stamps : forall n evs,
+  deliveries_from_log (cluster_init n) [] evs ->
+  no_ovf (crun (cluster_init n) [] evs).1 ->
+  forall r r', log_reg (crun (cluster_init n) [] evs).2 r -> log_reg (crun (cluster_init n) [] evs).2 r' ->
+  lw_ts r = lw_ts r' -> r = r'.
+Proof.
+  intros n evs Hd Hno.
+  exact (proj1 (crun_ginv evs _ _ (GInv_init n) Hd Hno)).
+Qed.
+Print Assumptions C06_unique_stamps.
+
+(* Convergence, closed system: the hypotheses are about the client inputs only (each key is
+   used with commands of one kind: strings SET [NX|XX] / APPEND / DEL, hashes HSET / HDEL),
+   the network (it delivers only deltas that were emitted, any number of times, in any order,
+   to anybody) and the absence of clock overflow.  Uniqueness of stamps, well-formedness,
+   kind and plainness of the deltas are all derived. *)
+Theorem C06_sec_closed : forall (K : list N -> N),
+  (forall k, K k = 0%N \/ K k = 5%N) ->
+  forall n evs i j ni nj k,
+  valid_run K (cluster_init n) [] evs ->
+  let c := (crun (cluster_init n) [] evs).1 in
+  no_ovf c -> c !! i = Some ni -> c !! j = Some nj ->
+  same_set (hist_of ni k) (hist_of nj k) ->
+  sh_keys (n_sh ni) !! k = sh_keys (n_sh nj) !! k.
+Proof. exact sec_closed_lemma. Qed.
+Print Assumptions C06_sec_closed.
 
 (* The agreed value of a string key is the register of the delta carrying the greatest
    (logical time, replica id) stamp among those incorporated. *)
